@@ -85,12 +85,15 @@ class Spec:
     nodes: tuple[tuple[int, str, Any, Any], ...]
     typed: bool = False
     flavour: str = "str"
+    #: (nodes of a base spec, one mutation of native/hist.py): `nodes` is then the tree that results when the base tree
+    #: is built, every accessor is evaluated once and the mutation is applied -- build() replays exactly that history
+    hist: Any = None
 
     def __len__(self):
         return len(self.nodes)
 
     def key(self):
-        return (self.nodes, self.typed, self.flavour)
+        return (self.nodes, self.typed, self.flavour, self.hist)
 
     def short(self) -> str:
         """Compact one-line rendering  a[b c[a]] d   (data_id as label#id, kind as label:kind)."""
@@ -107,7 +110,10 @@ class Spec:
                 s += "[" + " ".join(r(c) for c in ch[i]) + "]"
             return s
 
-        return " ".join(r(c) for c in ch[-1]) or "<empty>"
+        out = " ".join(r(c) for c in ch[-1]) or "<empty>"
+        if self.hist is not None:
+            out += f" <reached by {list(self.hist[1])} on the warmed tree {Spec(self.hist[0], self.typed).short()}>"
+        return out
 
 
 def plain_specs(max_n: int, *, min_n: int = 0, alphabet=ALPHABET) -> Iterator[Spec]:
@@ -260,6 +266,38 @@ def big_specs(seed_: int, count: int, *, lo=18, hi=60, typed=False) -> list:
     return out
 
 
+def _jsonable(x):
+    return tuple(_jsonable(y) for y in x) if isinstance(x, (list, tuple)) else x
+
+
+def history_specs(bases, *, labels=("q",), sample=None) -> list:
+    """For every base spec and every single change of hist.mutations(): the Spec of the tree that results on the code
+    under test (spec_of), carrying the history that produced it.  Refused changes and results that are not
+    well-formed are skipped (they are the business of C01..C04/C13)."""
+    from . import hist, view
+
+    out, seen = [], set()
+    for base in bases:
+        if base.flavour != "str" or base.hist is not None:
+            continue
+        muts = hist.mutations(base, labels=labels)
+        if sample is not None:  # (rng, k): k sampled changes per base
+            muts = sample[0].sample(muts, min(sample[1], len(muts)))
+        for mut in muts:
+            try:
+                tree, nodes = build(base)
+                hist.warm(tree, nodes)
+                if not hist.apply(tree, nodes, mut, make_data_factory(base.flavour), typed=base.typed) or view.wf_violations(tree):
+                    continue
+                sp = Spec(spec_of(tree).nodes, typed=base.typed, flavour=base.flavour, hist=(base.nodes, _jsonable(mut)))
+            except Exception:  # noqa: BLE001
+                continue
+            if sp.key() not in seen:
+                seen.add(sp.key())
+                out.append(sp)
+    return out
+
+
 # ---------------------------------------------------------------- data flavours (C02)
 @dataclass(frozen=True)
 class Item:  # frozen dataclass flavour: hashable, equality by value
@@ -328,6 +366,17 @@ def build(spec: Spec, *, name: str = "T", flavour: str | None = None, tree_cls=N
     from nutree.typed_tree import TypedTree
 
     flavour = flavour or spec.flavour
+    if spec.hist is not None:
+        from . import hist, view
+
+        base = Spec(spec.hist[0], typed=spec.typed, flavour=spec.flavour)
+        tree, nodes = build(base, name=name, flavour=flavour, tree_cls=tree_cls, mk=mk, order=order)
+        hist.warm(tree, nodes)
+        if not hist.apply(tree, nodes, list(spec.hist[1]), mk or make_data_factory(flavour), typed=spec.typed):
+            raise RuntimeError(f"history refused: {spec.short()}")
+        if spec_of(tree).nodes != spec.nodes:
+            raise RuntimeError(f"history leads to {spec_of(tree).short()}, not to {spec.short()}")
+        return tree, view.reachable(tree)
     if tree_cls is None:
         tree_cls = TypedTree if spec.typed else Tree
     kw = {}
